@@ -1,7 +1,11 @@
 """C10 - results are deterministic and independent of incidental ordering."""
+import warnings
+
 import hypothesis
 import numpy as np
 from hypothesis import strategies as st
+
+from acnportal.acnsim import Simulator
 
 from .. import scenario as sc
 from ..runner import Given, require
@@ -14,7 +18,9 @@ RULE = (
     "departures and estimated departures distinct by construction so that no sort key ties; noise "
     "off) together with three independent permutations (station registration, constraint "
     "insertion, event insertion) and a shift k in [0,8]. Oracle: (1) the same spec run twice gives "
-    "bit-identical matrices, energies and event history; (2) the permuted build gives, per station "
+    "bit-identical matrices, energies and event history, also when the simulator is built through "
+    "a JSON dump / load of the fresh object; scripted schedulers optionally steer by "
+    "interface.is_feasible; (2) the permuted build gives, per station "
     "id, exactly equal pilots, and rates / energies within 1e-12 relative, peak within 1e-9; (3) "
     "the build with every event shifted by k has k leading zero columns and then the base run's "
     "columns, equal energies, and event times shifted by k (for max_recompute None or 1, or "
@@ -82,6 +88,25 @@ def prop(spec, rec):
     require(np.array_equal(again.sim.pilot_signals, base.sim.pilot_signals) and np.array_equal(again.sim.charging_rates, base.sim.charging_rates), "same_inputs_different_outputs", "two simulations built from the same spec differ")
     require({k: ev.energy_delivered for k, ev in again.evs.items()} == e0 and again.sim.peak == base.sim.peak, "same_inputs_different_energies", "energies/peak differ between two identical builds")
     require([sc.event_key(e) for e in again.sim.event_history] == [sc.event_key(e) for e in base.sim.event_history], "same_inputs_different_event_history", "event history differs between two identical builds")
+
+    # the same inputs reached through a JSON dump of the freshly built simulator
+    fresh = sc.build_sim(spec)
+    with warnings.catch_warnings():
+        warnings.simplefilter("ignore")
+        loaded = Simulator.from_json(fresh.sim.to_json())
+    sched = sc.make_scheduler(spec)
+    loaded.update_scheduler(sched)
+    hl = sc.Handle(spec, loaded, loaded.network, {}, sched)
+    sc.run_sim(hl)
+    lids = list(loaded.network.station_ids)
+    for sid in m.station_ids:
+        require(sid in lids, "loaded_station_missing", lambda: "station %s missing after a JSON round trip" % sid)
+        lp, _ = trim(loaded.pilot_signals[lids.index(sid)], W)
+        lr, _ = trim(loaded.charging_rates[lids.index(sid)], W)
+        bp0, _ = trim(b[sid][0], W)
+        br0, _ = trim(b[sid][1], W)
+        require(np.array_equal(lp, bp0) and np.array_equal(lr, br0), "json_built_simulation_differs", lambda: "station %s: pilots/rates %r / %r after building through JSON, %r / %r directly" % (sid, lp, lr, bp0, br0))
+    require({k: ev.energy_delivered for k, ev in loaded.ev_history.items()} == e0, "json_built_simulation_energies", "energies differ when the simulator is built through a JSON dump")
 
     # (2) incidental order
     perm = spec["perm"]
@@ -190,6 +215,7 @@ def cases(draw):
     cons = draw(sc.constraint_lists(stations, 3, limits=(8.0, 12.0, 20.0, 30.0) + tuple(round(demand * f, 3) for f in (0.2, 0.4, 1.0, 2.0))))
     if kind == "scripted":
         sch = draw(sc.scripted_schedulers(stations))
+        sch["probe"] = draw(st.booleans())
     elif kind == "uncontrolled":
         sch = {"kind": "uncontrolled", "max_recompute": draw(st.sampled_from([1, 1, 2, 3]))}
     else:
